@@ -31,9 +31,10 @@ VARIABLES rows,     \* persisted vault: sequence of [s, v] rows in file order
           base,     \* [rows, log, alog] when the operation started
           nops,     \* operations completed
           crashed,  \* label of the crash point, or "no"
-          hist      \* history variable: the operations so far (for replay)
+          hist,     \* history variable: the operations so far (for replay)
+          vaultOk   \* FALSE while the persisted vault cannot be read
 
-vars == <<rows, log, alog, snap, logOk, cur, base, nops, crashed, hist>>
+vars == <<rows, log, alog, snap, logOk, cur, base, nops, crashed, hist, vaultOk>>
 
 Idle == [kind |-> "idle", s |-> None, v |-> None, pc |-> 0]
 NoSnap == <<"no">>
@@ -70,20 +71,20 @@ Init ==
   /\ rows = <<>> /\ log = <<Ev("cv", None, None)>> /\ alog = <<>>
   /\ snap = NoSnap /\ logOk = TRUE /\ cur = Idle
   /\ base = [rows |-> <<>>, log |-> <<Ev("cv", None, None)>>, alog |-> <<>>]
-  /\ nops = 0 /\ crashed = "no" /\ hist = <<>>
+  /\ nops = 0 /\ crashed = "no" /\ hist = <<>> /\ vaultOk = TRUE
 
 Begin(kind, s, v) ==
   /\ cur = Idle /\ crashed = "no" /\ nops < MaxOps
   /\ CASE kind = "create" -> ~Has(s)
        [] kind = "update" -> Has(s) /\ VaultMap(rows)[s] # v
        [] kind = "delete" -> Has(s)
-       [] kind = "compact" -> s = None /\ v = None
-  /\ (kind \in {"delete", "compact"} => v = None)
+       [] kind \in {"compact", "forcemerge"} -> s = None /\ v = None
+  /\ (kind \in {"delete", "compact", "forcemerge"} => v = None)
   /\ (kind \in {"create", "update"} => v \in Values)
   /\ cur' = [kind |-> kind, s |-> s, v |-> v, pc |-> 1]
   /\ base' = [rows |-> rows, log |-> log, alog |-> alog]
   /\ hist' = Append(hist, <<kind, s, v>>)
-  /\ UNCHANGED <<rows, log, alog, snap, logOk, nops, crashed>>
+  /\ UNCHANGED <<rows, log, alog, snap, logOk, nops, crashed, vaultOk>>
 
 Finish ==
   /\ cur' = Idle /\ nops' = nops + 1
@@ -123,7 +124,18 @@ Step ==
        [] k \in {"update", "delete"} /\ pc = 4 ->
             /\ log' = Append(log, Ev(k, s, v))
             /\ Finish /\ UNCHANGED <<rows, alog, snap, logOk>>
-       [] k = "compact" /\ pc = 1 ->   \* replace_all: snapshot copy
+       [] k = "forcemerge" /\ pc = 6 ->  \* folder_sync::force_merge: the rebuilt vault replaces the persisted one
+            (* intended: one atomic rewrite (sqlite transaction / write then set_len); *)
+            (* "VaultRewriteEmptiesFirst": the file is emptied before it is written    *)
+            IF Backend = "fs" /\ "VaultRewriteEmptiesFirst" \in Deviations
+            THEN /\ rows' = <<>>
+                 /\ cur' = [cur EXCEPT !.pc = 7] /\ UNCHANGED <<log, alog, snap, logOk, nops>>
+            ELSE /\ rows' = rows
+                 /\ cur' = [cur EXCEPT !.pc = 7] /\ UNCHANGED <<log, alog, snap, logOk, nops>>
+       [] k = "forcemerge" /\ pc = 7 ->
+            /\ rows' = base.rows
+            /\ Finish /\ UNCHANGED <<log, alog, snap, logOk>>
+       [] k \in {"compact", "forcemerge"} /\ pc = 1 ->   \* replace_all: snapshot copy
             (* sqlite replaces in one transaction; the intended file-system *)
             (* design writes the new log aside and renames it (atomic);     *)
             (* InPlaceReplace: the code truncates and rewrites in place     *)
@@ -131,16 +143,16 @@ Step ==
             /\ cur' = [cur EXCEPT !.pc = IF Backend = "db" \/ "InPlaceReplace" \notin Deviations
                                          THEN 4 ELSE 2]
             /\ UNCHANGED <<rows, log, alog, logOk, nops>>
-       [] k = "compact" /\ pc = 2 ->   \* truncate: the file is empty, no header
+       [] k \in {"compact", "forcemerge"} /\ pc = 2 ->   \* truncate: the file is empty, no header
             /\ log' = <<>> /\ logOk' = FALSE
             /\ cur' = [cur EXCEPT !.pc = 3] /\ UNCHANGED <<rows, alog, snap, nops>>
-       [] k = "compact" /\ pc = 3 ->   \* header written
+       [] k \in {"compact", "forcemerge"} /\ pc = 3 ->   \* header written
             /\ logOk' = TRUE
             /\ cur' = [cur EXCEPT !.pc = 4] /\ UNCHANGED <<rows, log, alog, snap, nops>>
-       [] k = "compact" /\ pc = 4 ->   \* the compacted events (one append / one tx)
+       [] k \in {"compact", "forcemerge"} /\ pc = 4 ->   \* the compacted events (one append / one tx)
             /\ log' = Compacted(base.log)
             /\ cur' = [cur EXCEPT !.pc = 5] /\ UNCHANGED <<rows, alog, snap, logOk, nops>>
-       [] k = "compact" /\ pc = 5 ->   \* snapshot removed
+       [] k \in {"compact", "forcemerge"} /\ pc = 5 ->   \* snapshot removed
             /\ snap' = NoSnap
             /\ cur' = [cur EXCEPT !.pc = 6] /\ UNCHANGED <<rows, log, alog, logOk, nops>>
        [] k = "compact" /\ pc = 6 ->   \* refresh_vault rewrites the persisted vault
@@ -149,13 +161,16 @@ Step ==
        [] k = "compact" /\ pc = 7 ->   \* account event
             /\ alog' = Append(alog, "CompactFolder")
             /\ Finish /\ UNCHANGED <<rows, log, snap, logOk>>
+  /\ vaultOk' = IF cur.kind = "forcemerge" /\ cur.pc = 6 /\ Backend = "fs"
+                    /\ "VaultRewriteEmptiesFirst" \in Deviations THEN FALSE
+                 ELSE IF cur.kind = "forcemerge" /\ cur.pc = 7 THEN TRUE ELSE vaultOk
   /\ UNCHANGED <<base, crashed, hist>>
 
 (* the process dies between two writes of the running operation *)
 Crash ==
   /\ cur # Idle /\ crashed = "no"
   /\ crashed' = cur.kind \o ":" \o ToString(cur.pc)
-  /\ UNCHANGED <<rows, log, alog, snap, logOk, cur, base, nops, hist>>
+  /\ UNCHANGED <<rows, log, alog, snap, logOk, cur, base, nops, hist, vaultOk>>
 
 (* the normal open path *)
 Recover ==
@@ -163,11 +178,12 @@ Recover ==
   /\ cur' = Idle
   /\ rows' = IF "NoReconcile" \in Deviations \/ ~logOk THEN rows
              ELSE rows   \* intended: rebuilt from the log, see RecoveredVault
-  /\ UNCHANGED <<log, alog, snap, logOk, base, nops, crashed, hist>>
+  /\ UNCHANGED <<log, alog, snap, logOk, base, nops, crashed, hist, vaultOk>>
 
 Next == \/ \E k \in {"create", "update", "delete"}, s \in Slots, v \in Values \cup {None} :
               Begin(k, s, v)
         \/ Begin("compact", None, None)
+        \/ Begin("forcemerge", None, None)
         \/ Step \/ Crash \/ Recover
 
 Spec == Init /\ [][Next]_vars
@@ -182,7 +198,7 @@ After == [rows |-> rows, log |-> log]
 Recovered == crashed # "no" /\ cur = Idle
 
 (* C13 *)
-OpensAfterCrash == Recovered => logOk
+OpensAfterCrash == Recovered => (logOk /\ vaultOk)
 LogBeforeOrAfter ==
   Recovered => \/ log = base.log
                \/ \E e \in [k : {"create", "update", "delete"}, s : Slots, v : Values \cup {None}] :
